@@ -173,9 +173,15 @@ func (nmds *NumpyMultiDataset) Append(cs *ColumnSeries, tbk TimeBucketKey) (err 
 		return
 	}
 	colSeriesNames := cs.GetColumnNames()
+	csShapes := cs.GetDataShapes()
 	for idx, name := range nmds.ColumnNames {
 		if name != colSeriesNames[idx] {
 			err = errors.New("data shape mismatch of ColumnSeries and NumpyMultiDataset")
+			return
+		}
+		// same name but another type: the bytes would be decoded with the first bucket's type
+		if typeStr, ok := typeMap[csShapes[idx].Type]; !ok || idx >= len(nmds.ColumnTypes) || typeStr != nmds.ColumnTypes[idx] {
+			err = errors.New("data type mismatch of ColumnSeries and NumpyMultiDataset")
 			return
 		}
 	}
